@@ -803,7 +803,9 @@ def parse_tree_to_objgraph(
         # Collect rules for textx-tools
         if inst is not None and metamodel.textx_tools_support:
             pos = (inst._tx_position, inst._tx_position_end)
-            pos_rule_dict[pos] = inst
+            # Nested objects may have the same span. Keep the innermost one
+            # (children are processed before their container).
+            pos_rule_dict.setdefault(pos, inst)
 
         return inst
 
